@@ -32,6 +32,12 @@ pub fn tracker_child(args: &Args) {
     c.protocol.peer_announce_interval = INTERVAL;
     c.cleaning.torrent_cleaning_interval = 100_000;
     c.cleaning.connection_cleaning_interval = 100_000;
+    if let Some(v) = args.extra.get("cleaning-interval") {
+        c.cleaning.torrent_cleaning_interval = v.parse().unwrap();
+    }
+    if let Some(v) = args.extra.get("max-peer-age") {
+        c.cleaning.max_peer_age = v.parse().unwrap();
+    }
     if let Some(path) = args.extra.get("acl-path") {
         c.access_list.path = path.into();
         c.access_list.mode = if g("acl-mode") == 1 {
@@ -472,4 +478,54 @@ pub fn run(args: &Args) {
         seg_total,
         ks.iter().map(|(k, n)| format!("\"{}\": {}", k, n)).collect::<Vec<_>>().join(", ")
     );
+}
+
+/// `http-expiry-probe`: real-time probe of C10 on a running http tracker (cleaning every 6 s,
+/// max_peer_age 6 s): a peer announcing 3 s after start must survive the cleaning pass at 6 s
+/// (its deadline is 9 s) and be gone after the pass at 12 s. Prints one `CASE` line whose
+/// observation is the (complete + incomplete) count scraped at about 8 s and at about 14.5 s.
+pub fn expiry_probe(args: &Args) {
+    crate::drive(args, 0x10b, |_rng, _keep, _seed, header, items| {
+        let port = free_port();
+        let child = std::process::Command::new(std::env::current_exe().unwrap())
+            .args(["http-tracker", "--port", &port.to_string(), "--socket-workers", "1", "--swarm-workers", "1", "--keep-alive", "1",
+                   "--max-scrape", "10", "--max-peers", "10", "--cleaning-interval", "6", "--max-peer-age", "6"])
+            .stdout(std::process::Stdio::null())
+            .stderr(std::process::Stdio::null())
+            .spawn()
+            .unwrap();
+        let _child = Child(child);
+        let t0 = Instant::now();
+        while TcpStream::connect(("127.0.0.1", port)).is_err() {
+            std::thread::sleep(Duration::from_millis(10));
+        }
+        let started = t0.elapsed();
+        let hash = [0x5au8; 20];
+        let scrape = |port: u16| -> i64 {
+            let mut s = connect(false, port);
+            let text = format!("GET /scrape?info_hash={} HTTP/1.1\r\nHost: t\r\n\r\n", pct(&hash));
+            let (raw, _) = exchange(&mut s, text.as_bytes(), &[], true);
+            let body_start = raw.windows(4).position(|w| w == b"\r\n\r\n").map(|p| p + 4).unwrap_or(raw.len());
+            match Response::parse_bytes(raw[body_start..].strip_suffix(b"\r\n").unwrap_or(&raw[body_start..])) {
+                Ok(Response::Scrape(sr)) => sr.files.values().map(|f| (f.complete + f.incomplete) as i64).sum(),
+                _ => -1,
+            }
+        };
+        let wait_until = |secs: f64| {
+            let target = Duration::from_secs_f64(secs) + started;
+            while t0.elapsed() < target {
+                std::thread::sleep(Duration::from_millis(20));
+            }
+        };
+        wait_until(3.0);
+        let mut s = connect(false, port);
+        let text = format!("GET /announce?info_hash={}&peer_id={}&port=6881&uploaded=0&downloaded=0&left=1&compact=1 HTTP/1.1\r\nHost: t\r\n\r\n", pct(&hash), pct(&[b'p'; 20]));
+        let _ = exchange(&mut s, text.as_bytes(), &[], true);
+        wait_until(8.0);
+        let at8 = scrape(port);
+        wait_until(14.5);
+        let at14 = scrape(port);
+        *header = "6%N, 6%N".to_string();
+        items.push(format!("({}, {})", cq::z(at8 as i128), cq::z(at14 as i128)));
+    });
 }
